@@ -337,7 +337,7 @@ func runCheck(repo, prop, tier string, keep bool, only string, verbose bool) int
 	kf := loadKnown()
 	bySolver := map[string]int{}
 	solverTime := 0.0
-	var failed, known []*Obligation
+	var failed, known, infra []*Obligation
 	var brokenCanaries []string
 	canaryGroups := map[string]*canaryGroup{}
 	nObl, nDis, nCanary := 0, 0, 0
@@ -377,6 +377,10 @@ func runCheck(repo, prop, tier string, keep bool, only string, verbose bool) int
 			}
 		} else if k := kf.match(prop, o.Name); k != nil {
 			known = append(known, o)
+		} else if o.Result.Status == "error" {
+			// no solver could be run on it (disk full, solver missing ...): an
+			// infrastructure failure, not a statement about the code
+			infra = append(infra, o)
 		} else {
 			nObl++
 			if rep != nil {
@@ -439,6 +443,16 @@ func runCheck(repo, prop, tier string, keep bool, only string, verbose bool) int
 	sort.Strings(slow)
 	for _, sl := range slow {
 		fmt.Printf("SLOW: %s\n", sl)
+	}
+	if len(infra) > 0 {
+		out := strings.TrimSpace(infra[0].Result.Output)
+		if len(out) > 300 {
+			out = out[:300]
+		}
+		fmt.Printf("ERROR: property=%s %d obligation(s) could not be decided because no solver could be run (first: %s: %s); this is an infrastructure failure, not a violation\n", prop, len(infra), infra[0].Name, out)
+		if exit == 0 {
+			exit = 2
+		}
 	}
 	if len(brokenCanaries) > 0 {
 		for _, c := range brokenCanaries {
